@@ -38,6 +38,9 @@ func (t *TaskExecutor[T]) ExecuteAt(identifier T, callback func(), executionTime
 
 	if queuedElement, queuedElementExists := t.queuedElements.Get(identifier); queuedElementExists {
 		queuedElement.Cancel()
+		// the canceled task is not registered anymore, whatever happens to the new one (a shut down executor refuses it
+		// or panics)
+		t.queuedElements.Delete(identifier)
 	}
 
 	var scheduledTask *ScheduledTask
@@ -58,10 +61,6 @@ func (t *TaskExecutor[T]) ExecuteAt(identifier T, callback func(), executionTime
 
 	if scheduledTask != nil {
 		t.queuedElements.Set(identifier, scheduledTask)
-	} else {
-		// the executor was shut down and refused the task: the previous task of this identifier was canceled above, so
-		// there is nothing left that could be canceled
-		t.queuedElements.Delete(identifier)
 	}
 
 	return scheduledTask
